@@ -20,6 +20,8 @@
 #include <tao/pegtl/contrib/limit_bytes.hpp>
 #include <tao/pegtl/contrib/limit_depth.hpp>
 #include <tao/pegtl/contrib/parse_tree.hpp>
+#include <tao/pegtl/contrib/predicates.hpp>
+#include <tao/pegtl/contrib/rep_one_min_max.hpp>
 
 namespace vh
 {
